@@ -916,7 +916,7 @@ End PREVIEW_EVAL.
 
 Local Arguments NYield {C F W} w line it c.
 Local Arguments NDone {C F W} it c.
-Local Arguments NErr {C F W} f c.
+Local Arguments NErr {C F W} f it c.
 Local Arguments NPanic {C F W} site.
 Local Arguments NOOF {C F W}.
 Local Arguments ItNone {DE} st.
@@ -933,7 +933,7 @@ Definition sim_nres (rs rd : nres ctx xfail (list dentry)) : Prop :=
   match rs with
   | NYield w l it c => exists c', rd = NYield w l it c' /\ srel c c'
   | NDone it c => exists c', rd = NDone it c' /\ srel c c'
-  | NErr f c => if unk_f f then True else exists c', rd = NErr f c' /\ srel c c'
+  | NErr f it c => if unk_f f then True else exists c', rd = NErr f it c' /\ srel c c'
   | NPanic _ | NOOF => True
   end.
 
@@ -970,8 +970,8 @@ Section PREVIEW_ITER.
 Variable G : gen.
 Variable tc : testcase.
 
-Lemma sim_nres_NErr : forall f c c', srel c c' -> sim_nres (NErr f c) (NErr f c').
-Proof. intros f c c' H. cbn [sim_nres]. destruct (unk_f f); [exact I|]. eauto. Qed.
+Lemma sim_nres_NErr : forall f it c c', srel c c' -> sim_nres (NErr f it c) (NErr f it c').
+Proof. intros f it c c' H. cbn [sim_nres]. destruct (unk_f f); [exact I|]. eauto. Qed.
 
 Lemma snext_sim : forall fuel it c c', srel c c' ->
   sim_nres (snext G fuel it c) (snext G fuel it c').
@@ -1002,7 +1002,7 @@ Proof.
     apply IH. apply srel_set. apply srel_push. exact Hs.
   - apply IH. exact Hs.
   - pose proof (IH inner c c' Hs) as Hi.
-    destruct (snext G f inner c) as [w l inner' c1|it' c1|x c1|s|]; cbn [sim_nres] in Hi |- *;
+    destruct (snext G f inner c) as [w l inner' c1|it' c1|x inner' c1|s|]; cbn [sim_nres] in Hi |- *;
       try exact I.
     + destruct Hi as [c1' [-> Hs1]]. eauto.
     + destruct Hi as [c1' [-> Hs1]]. apply IH. exact Hs1.
@@ -1017,7 +1017,7 @@ Proof.
     destruct v as [z|x]; [|apply sim_nres_NErr; exact Hs1].
     destruct (Z.eqb z 0); apply IH; exact Hs1.
   - pose proof (IH inner c c' Hs) as Hi.
-    destruct (snext G f inner c) as [w l inner' c1|it' c1|x c1|s|]; cbn [sim_nres] in Hi |- *;
+    destruct (snext G f inner c) as [w l inner' c1|it' c1|x inner' c1|s|]; cbn [sim_nres] in Hi |- *;
       try exact I.
     + destruct Hi as [c1' [-> Hs1]]. eauto.
     + destruct Hi as [c1' [-> Hs1]]. apply IH. exact Hs1.
